@@ -163,7 +163,7 @@ class SeqCell:
 class MapCell:
     """dict with symbolic scalar keys: dom: Array K Bool, val: Array K V (V scalar sort or Int for refs)."""
 
-    __slots__ = ("ksort", "vkind", "dom", "val", "refcls", "fields", "n", "fields0", "rname")
+    __slots__ = ("ksort", "vkind", "dom", "val", "refcls", "fields", "n", "fields0", "rname", "optional")
 
     def __init__(self, ksort, vkind, dom, val, refcls=None, fields=None, n=None, fields0=None, rname=None):
         self.ksort = ksort
@@ -180,9 +180,12 @@ class MapCell:
         self.n = n
         self.fields0 = fields0 if fields0 is not None else dict(self.fields)
         self.rname = rname
+        self.optional = {}        # field -> boolean flag field: the field reads as None in the code unless the flag is true
 
     def copy(self):
-        return MapCell(self.ksort, self.vkind, self.dom, self.val, self.refcls, self.fields, self.n, self.fields0, self.rname)
+        c = MapCell(self.ksort, self.vkind, self.dom, self.val, self.refcls, self.fields, self.n, self.fields0, self.rname)
+        c.optional = self.optional
+        return c
 
 
 class RegionListCell:
